@@ -208,8 +208,9 @@ func checkC01(h *harness.H, ci interface{}) *harness.Failure {
 	}
 	modes := []int{0, 1, 2}
 	if c.Contraction {
-		// N6: non-polarized mode with contraction crashes/deadlocks intermittently (known finding):
-		// those runs are excluded by construction and counted.
+		// N6 (non-polarized mode with contraction crashed intermittently) was a known finding for most
+		// of the build: while it was listed those runs were excluded by construction and counted. It
+		// is repaired now (fix aa68d63), so IsKnown is false and all three modes run.
 		if h.IsKnown("N6") {
 			modes = []int{0, 1}
 			h.S.Count("excluded_np_runs_with_contraction(N6)")
